@@ -131,7 +131,7 @@ def run(ck, prog, tier, load):
     mp = [b for b in prog.bodies.values() if b.crate == "actix_multipart" and not b.file.endswith("test.rs")]
     summ = Summ(prog, ck)
     scanners = prog.find(SCANNERS)
-    ck.anchor("C15-a", len(scanners), 7, "need-more scanners (read_max, read_until, readline, readline_or_eof, read_boundary, skip_until_boundary, read_field_headers)")
+    ck.anchor("C15-a", len(scanners), 4, "need-more scanners (read_max, read_until, readline, readline_or_eof, read_boundary, skip_until_boundary, read_field_headers)")
     for f in scanners:
         summ.need_more_ok(f)
 
@@ -178,12 +178,12 @@ def run(ck, prog, tier, load):
             ck.ob("C15-a.pending-justified", "%s|under %s" % (b.npath, near), just is not None, b, bb,
                   "Poll::Pending in %s: %s" % (b.npath.split("::")[-1], just or "NOT justified: reachable with eof already seen -> no wake-up will ever come (hang)"),
                   witness=b.path_lines(wit) if just is None else None)
-    ck.anchor("C15-a", n_pending, 9, "Poll::Pending return sites in the multipart parser")
+    ck.anchor("C15-a", n_pending, 5, "Poll::Pending return sites in the multipart parser")
 
     # ---- (b) bounded fill --------------------------------------------------
     BUF = r"\.actix_multipart::payload::PayloadBuffer\.buf$"
     ext = [(b, bb, t) for (b, bb, t, m) in method_calls_on_field(prog, BUF, ["actix_multipart"]) if m == "extend_from_slice" and not b.file.endswith("test.rs")]
-    ck.anchor("C15-b", len(ext), 3, "extend_from_slice on PayloadBuffer.buf")
+    ck.anchor("C15-b", len(ext), 2, "extend_from_slice on PayloadBuffer.buf")
     for b, bb, t in ext:
         arg = b.op_expr(t["args"][1])
         if b.npath.endswith("::unprocessed"):
@@ -240,7 +240,7 @@ def run(ck, prog, tier, load):
         br = ps.branch(a)
         if br and root_is(br[0], APP):
             app_sw.append((a, br))
-    ck.anchor("C15-c", len(app_sw), 3, "tests of `appended` in poll_stream")
+    ck.anchor("C15-c", len(app_sw), 2, "tests of `appended` in poll_stream")
     wk = [bb for bb, t in ps.calls(r"Waker::wake_by_ref$")]
     for a, br in app_sw:
         te = [tb for lab, tb in br[1] if lab is True]
@@ -304,7 +304,7 @@ def run(ck, prog, tier, load):
             # the unconditional `self.state = State::Boundary` after headers were read
             ok = True
         ck.ob("C15-d.state-transition", "%s->%s" % ("/".join(sorted(cur)) or "?", new), ok, bd, bb, "Inner.state: %s -> %s" % (sorted(cur), new))
-    ck.anchor("C15-d", n, 6, "writes of Inner.state")
+    ck.anchor("C15-d", n, 3, "writes of Inner.state")
 
     # ---- (e) no consumption before need-more ---------------------------------
     CONSUME = r"bytes::bytes_mut::BytesMut::(split_to|split|split_off|advance|clear|truncate)$|Buf>::advance$"
